@@ -91,7 +91,9 @@ type corpusEntry struct {
 	Kind int
 }
 
-func testdataDir() string { return filepath.Join(repoRoot(), "v3", "testdata") }
+func testdataDir() string {
+	return envOr("ZSIM_CORPUS", filepath.Join(repoRoot(), "v3", "testdata"))
+}
 
 // corpusIndex lists testdata file names in sorted order (kind is only known
 // after reading a file, see loadCorpusFile).
